@@ -3,6 +3,7 @@
    (wfc_b / wfm_b) and the ordering predicate of Model/PrepareSteps.v; it never calls the validators. *)
 From Verif Require Export Base.Prelude Base.StrOrd Base.StrUtil Base.Graph Model.MapSpec Model.MapSpecSpec
   Model.PrepareSteps Model.Validate Model.ValidateSpec.
+From Verif Require Model.Pipe.      (* the model of Pipeline.run of C02; used qualified (its field names clash) *)
 
 Inductive case :=
 | CConstruct (fs : list raw_func) (claimed_valid : bool)
@@ -14,12 +15,15 @@ Inductive case :=
 | CPrepOrder (cleanup : bool)
     (* the non-Pure steps of prepare_run extracted from the source by the translator + did coqc accept
        gen/Check_PrepareSteps.v on the regenerated term *)
-| CClassify (tag : nat).
+| CClassify (tag : nat)
+| CCall (p : Pipe.pipeline) (o : str) (kw : Pipe.alist) (claimed_valid : bool).
+    (* pipeline(o, **kw) on a constructed pipeline without MapSpecs (Pipe.run, the model validated by C02).
+       observed: [accepted] | [rejected; class; #calls made before the exception] *)
     (* dynamic validation of the translator's classification table on valid request #tag:
        observed = the list of callees classified Check/Pure/Rewrite that were seen to alter the run folder *)
 
 Definition claimed_valid_flag (c : case) : bool :=
-  match c with CConstruct _ b => b | CMap _ b => b | _ => false end.
+  match c with CConstruct _ b => b | CMap _ b => b | CCall _ _ _ b => b | _ => false end.
 
 Definition sx_step (st : step) : sx :=
   match st with
@@ -58,9 +62,24 @@ Definition run (c : case) : sx :=
       end
   | CPrepOrder cleanup => SL [SL (map sx_step (map_steps cleanup)); SB true]
   | CClassify _ => SL []
+  | CCall p o kw _ =>
+      if Pipe.wf_pipelineb p then
+        match Pipe.run Pipe.Sym.body Pipe.Sym.pick p o kw false with
+        | (Ok _, _) => SL [SS (s "accepted")]
+        | (Err e, lg) => SL [SS (s "rejected"); SS (s (err_name e)); SN (length lg)]
+        end
+      else SL [SS (s "bad-case")]
   end.
 
 (* ------------------------------------------------------------------ the executable statement *)
+(* pipeline(o, **kw): a needed argument has no value (the specification's own evaluation `Pipe.eval` fails) /
+   a keyword names no parameter of any function the output depends on *)
+Definition call_missing (p : Pipe.pipeline) (o : str) (kw : Pipe.alist) : bool :=
+  negb (is_ok (Pipe.eval_top Pipe.Sym.body Pipe.Sym.pick p kw o)).
+Definition call_surplus (p : Pipe.pipeline) (o : str) (kw : Pipe.alist) : bool :=
+  negb (subset_str (Pipe.akeys kw) (Pipe.param_names_needed p kw o)).
+Definition call_in_scope (p : Pipe.pipeline) (o : str) (kw : Pipe.alist) : bool :=
+  Pipe.wf_pipelineb p && Pipe.is_output p o && negb (Pipe.ahas kw o).
 Definition steps_ok (cleanup : bool) (steps : list step) : bool :=
   if cleanup
   then (* the requested removal of the old folder is the only effect that may precede a check *)
@@ -103,4 +122,16 @@ Definition spec_ok (c : case) (obs : sx) : bool :=
       | _ => false
       end
   | CClassify _ => match obs with SL [] => true | _ => false end
+  | CCall p o kw claimed =>
+      if negb (call_in_scope p o kw) then true
+      else if call_missing p o kw || call_surplus p o kw then
+        match obs with
+        | SL [SS t; SS _; SI n] => str_eqb t (s "rejected") && (n =? 0)%Z   (* before any user function is invoked *)
+        | _ => false
+        end
+      else
+        match obs with
+        | SL [SS t] => str_eqb t (s "accepted")
+        | _ => negb claimed
+        end
   end.
